@@ -122,6 +122,21 @@ def bounded_purity(tier, seed):
         got = run_native(lambda: select(None, expr, parser=PARSERS['3.1'], item=1))
         if got != ('return', want):
             fails.append({'key': f'scope {expr}', 'what': f'`{expr}` = {got!r}, lexical scoping gives {want!r}'})
+    # the four entry points build the same initial focus from their arguments
+    root = ET.XML(docs[0])
+    for expr, want in (('position()', [2]), ('last()', [5]), ('(position(), last())', [2, 5])):
+        outs = {}
+        for name, fn_ in (('select', lambda: select(root, expr, item=root, position=2, size=5, parser=PARSERS['3.1'])),
+                          ('iter_select', lambda: list(iter_select(root, expr, item=root, position=2, size=5, parser=PARSERS['3.1']))),
+                          ('Selector.select', lambda: Selector(expr, parser=PARSERS['3.1']).select(root, item=root, position=2, size=5)),
+                          ('Selector.iter_select', lambda: list(Selector(expr, parser=PARSERS['3.1']).iter_select(root, item=root, position=2, size=5)))):
+            n += 1
+            seen.add(('focus', name, expr))
+            got = run_native(fn_)
+            g = got[1] if got[0] == 'return' else got
+            g = g if isinstance(g, list) else [g]
+            if g != want:
+                fails.append({'key': f'focus {name} {expr}', 'what': f'{name}(root, {expr!r}, position=2, size=5) = {got!r}, expected {want}'})
     return {'evaluations': n, 'distinct': len(seen), 'failures': fails, 'n_failures': len(fails),
             'scope': f'{len(exprs)} expressions x {len(docs)} documents: select == iter_select, re-used Selector across documents == '
                      'fresh Selector, input tree bytes unchanged, caller variable values (incl. xs:dateTime tzinfo, maps, arrays) '
